@@ -78,6 +78,7 @@ def run (j : Json) : Except String Json := do
             | none => none
           else submitted r.tag attrs text
         outs := outs.push (obj [("bind", bindJson), ("err", Json.null), ("out", out), ("posted", ofPair posted),
+          ("submitter", Json.bool (isSubmitter r.tag attrs)),
           ("id", ofOpt ofStr (attr? attrs sId)), ("for", ofOpt ofStr (attr? attrs sFor))])
         names := names.push (attr? attrs sName)
         g := { g with ctx := res.ctx }
